@@ -57,10 +57,10 @@ def keysOf (prop : String) : List String :=
 def clausesOf (prop : String) : List String :=
   if prop == "C04" then ["get_only_put", "get_returns_stored_until_pruned", "returned_bytes_stable", "put_error"]
   else if prop == "C05" then ["counter_ge_held", "held_le_cap", "prune_frees_5pct", "farthest_first", "put_error", "counter_ge_held_concurrent"]
-  else if prop == "C06" then ["retained_within_radius", "radius_antitone", "refusal_exact"]
+  else if prop == "C06" then ["retained_within_radius", "radius_antitone", "refusal_exact", "radius_changes_only_by_own_prune"]
   else if prop == "C17" then ["open_radius_max_when_empty", "counter_ge_held"]
   else ["get_only_put", "get_returns_stored_until_pruned", "returned_bytes_stable", "put_error", "counter_ge_held", "held_le_cap", "prune_frees_5pct",
-        "farthest_first", "retained_within_radius", "radius_antitone", "refusal_exact", "open_radius_max_when_empty"]
+        "farthest_first", "retained_within_radius", "radius_antitone", "refusal_exact", "open_radius_max_when_empty", "radius_changes_only_by_own_prune"]
 
 def stepAll (d : DS) (toks : List String) (impl : String) : DS × Res :=
   let it := words impl
@@ -126,6 +126,12 @@ def stepAll (d : DS) (toks : List String) (impl : String) : DS × Res :=
       ++ (if maxKept != "-" && beVal (unhex maxKept) > radius then ["retained_within_radius"] else [])
       ++ (if maxKept == "-" && radius != maxRadius then ["open_radius_max_when_empty"] else [])
     ({ d with st := s', prevRadius := radius }, { model := "ok " ++ snap s', monitor := mon, tags := ["reopen"] })
+  | some "twostore" =>
+    -- a second store in the same process that never pruned keeps the maximum radius whatever the first one does, and a
+    -- store opened afterwards starts at the maximum
+    let mx := hex64 maxRadius
+    let m := s!"same=1 radiusB={mx} lateput=ok fresh={mx}"
+    (d, { model := m, monitor := if impl == m then [] else ["radius_changes_only_by_own_prune"], tags := ["twostore", "prunedA" ++ kv toks "prunedA"] })
   | some "conc" =>
     -- two puts as the atomic steps the code has; the schedule is an input (forced through the yield hook)
     let ths : List Conc.Thread := [{ key := 1, len := kvNat toks "lenA", snap := none }, { key := 2, len := kvNat toks "lenB", snap := none }]
@@ -155,6 +161,8 @@ def step (prop : String) (d : DS) (toks : List String) (impl : String) : DS × R
   if op == "put" || op == "reopen" || op == "open" then
     (r.1, { res with model := project (keysOf prop) res.model, implView := some (project (keysOf prop) impl) })
   else if (op == "get" || op == "retained") && prop != "C04" && prop != "all" then
+    (r.1, { res with skipCompare := true })
+  else if op == "twostore" && prop != "C06" && prop != "all" then
     (r.1, { res with skipCompare := true })
   else if op == "conc" && prop != "C05" && prop != "all" then
     (r.1, { res with skipCompare := true })
